@@ -17,6 +17,8 @@ EXTRA = [
     ("choice_squares", "x = 1\ny = 2\nwhile true:\n    x, y = x*y {1/2} x, y + 1 {1/2} y*x\nend\n"),
     ("markov_like", "x, y = 1, 2\nwhile true:\n    s = Bernoulli(1/2)\n    if s == 0:\n        x, y = x + x*y, (1/3)*x + (2/3)*y + (x*y)\n    else:\n        x, y = x + y + (2/3)*x*y, 2*y + (2/3)*(x*y)\n    end\nend\n"),
     ("squares_toggle", "x, y, z = 1, 1, 0\nwhile true:\n    z = 1 - z\n    x, y = x + z*x**2 - y**2, y + z*x**2 - y**2\nend\n"),
+    ("squares_toggle_z", "z = 0\nwhile true:\n    z = 1 - z\n    x = 2*x + y**2 + z\n    y = 2*y - y**2 + 2*z\nend\n"),
+    ("squares_lazy_z", "z = 0\nwhile true:\n    z = z + 1 {1/2} z\n    x = 2*x + y**2 + z\n    y = 2*y - y**2 + 2*z\nend\n"),
     ("dependent_init", "x = Bernoulli(1/2)\ny = 2*x\nwhile true:\n    s = Bernoulli(1/2)\n    if s == 0:\n        x, y = x + x*y, (1/3)*x + (2/3)*y + (x*y)\n    else:\n        x, y = x + y + (2/3)*x*y, 2*y + (2/3)*(x*y)\n    end\nend\n"),
 ]
 
@@ -24,7 +26,7 @@ EXTRA = [
 def main(tier, seed):
     run = Run("C14", "model_checking", tier, seed)
     quick = run.tier == "quick"
-    N = 3
+    N = 4
     subjects = []
     for path in sorted(glob.glob(os.path.join(C.REPO, "benchmarks", "defective", "*.prob"))):
         name = os.path.splitext(os.path.basename(path))[0]
@@ -40,8 +42,8 @@ def main(tier, seed):
             jobs.append({"kind": "synth", "id": f"{name}-d{deg}", "text": text, "deg": deg, "N": N, "points": [{}, {}],
                          "timeout": 150 if quick else 400})
     # the same analyses after another loop with equally named variables was analysed in the same process
-    SQ_A = "x, y, z = 1, 2, 0\nwhile true:\n    z = 1 - z\n    x, y = x + z*x**2 - y**2, y + z*x**2 - y**2\nend\n"
-    SQ_B = "x, y, z = 1, 2, 0\nwhile true:\n    z = z + 1 {1/2} z\n    x, y = x + z*x**2 - y**2, y + z*x**2 - y**2\nend\n"
+    SQ_A = "z = 0\nwhile true:\n    z = 1 - z\n    x = 2*x + y**2 + z\n    y = 2*y - y**2 + 2*z\nend\n"
+    SQ_B = "z = 0\nwhile true:\n    z = z + 1 {1/2} z\n    x = 2*x + y**2 + z\n    y = 2*y - y**2 + 2*z\nend\n"
     for name, text, pre in (("hist-B-after-A", SQ_B, SQ_A), ("hist-A-after-B", SQ_A, SQ_B),
                             ("hist-markov-after-A", EXTRA[1][1], SQ_A)):
         jobs.append({"kind": "synth", "id": f"{name}-d2", "text": text, "deg": 2, "N": N, "points": [{}, {}], "timeout": 200,
